@@ -2,6 +2,7 @@ package syntax
 
 import (
 	"fmt"
+	"regexp"
 	"runtime/debug"
 	"sort"
 	"strings"
@@ -253,6 +254,9 @@ func hasContinuationLine(printed string) bool {
 		if cur == "" || prev == "" {
 			continue
 		}
+		if (strings.HasPrefix(cur, "(") || strings.HasPrefix(cur, "!") || strings.HasPrefix(cur, "[")) && strings.Contains(prev, "attach ") {
+			return true // `attach A() to a` ⏎ `(…)`: the attach parser skips the newline behind its base expression, so the next line continues it as a call
+		}
 		if strings.ContainsRune("-*/&<", rune(cur[0])) && !strings.HasPrefix(cur, "//") && !strings.HasPrefix(cur, "/*") &&
 			!strings.HasSuffix(prev, "{") && !strings.HasSuffix(prev, "(") && !strings.HasSuffix(prev, ",") {
 			return true
@@ -341,6 +345,66 @@ func hasSingleDisjunction(v any) bool {
 	return found
 }
 
+var lessBeforeFun = regexp.MustCompile(`<\s*[\[\({]*\s*(view\s+)?fun\b`)
+var viewBeforeFun = regexp.MustCompile(`\bview[ \t]*\n\s*(access\([^)]*\)\s*)?fun\b`)
+
+func hasDefaultNotLast(v any) bool {
+	found := false
+	var walk func(v any)
+	walk = func(v any) {
+		switch x := v.(type) {
+		case map[string]any:
+			if x["Type"] == "SwitchStatement" {
+				if cs, ok := x["Cases"].([]any); ok {
+					for i, c := range cs {
+						if m, ok := c.(map[string]any); ok && m["Expression"] == nil && i < len(cs)-1 {
+							found = true
+						}
+					}
+				}
+			}
+			for _, val := range x {
+				walk(val)
+			}
+		case []any:
+			for _, e := range x {
+				walk(e)
+			}
+		}
+	}
+	walk(v)
+	return found
+}
+
+func hasGenericInvocationOperand(v any) bool {
+	found := false
+	var walk func(v any)
+	walk = func(v any) {
+		switch x := v.(type) {
+		case map[string]any:
+			// `a < b > ()`: a comparison chain whose last operand is the Void literal looks like `a<b>()`
+			if x["Type"] == "BinaryExpression" && x["Operation"] == "OperationGreater" {
+				l, lok := x["Left"].(map[string]any)
+				r, rok := x["Right"].(map[string]any)
+				// (or an operand that keeps its parentheses because it binds less tightly than `>`)
+				keepsParens := len(r) == 0 || r["Type"] == "BinaryExpression" || r["Type"] == "ConditionalExpression" || r["Type"] == "CastingExpression"
+				if lok && rok && l["Type"] == "BinaryExpression" && l["Operation"] == "OperationLess" && keepsParens {
+					found = true
+				}
+			}
+			for _, val := range x {
+				walk(val)
+			}
+		case []any:
+			for _, e := range x {
+				walk(e)
+			}
+		}
+	}
+	walk(v)
+	return found
+}
+
 // knownC38 returns the id of the known finding whose predicate the program matches ("" if none).
 func knownC38(rec *evid.Rec, j1 any, msg, printed string) string {
 	return knownPrinterDefect(rec.Known, j1, msg, printed)
@@ -350,11 +414,23 @@ func knownC38(rec *evid.Rec, j1 any, msg, printed string) string {
 func knownPrinterDefect(isKnown func(string) bool, j1 any, msg, printed string) string {
 	rec := knownFunc(isKnown)
 	switch {
+	case rec.Known("FS50") && viewBeforeFun.MatchString(printed):
+		// FS50: an expression statement/initialiser ending in the identifier `view` followed by a function declaration on the next
+		// line: printed as `view` ⏎ `fun …`, which re-parses as a view function
+		return "FS50"
+	case rec.Known("FS51") && hasDefaultNotLast(j1):
+		// FS51: a switch whose `default` is not the last case (accepted by the parser) is printed with an empty `case :`
+		return "FS51"
+	case rec.Known("FS52") && hasGenericInvocationOperand(j1):
+		// FS52: the comparison chain `a < b > ()` (accepted when written `a<h .a>()` with a space) is printed as `a < h.a > ()`,
+		// which the parser's `<` disambiguation reads as the generic invocation `a<h.a>()`
+		return "FS52"
 	case rec.Known("FS40") && strings.Contains(msg, "program too ambiguous, local replay limit"):
 		// FS40: the printed form puts spaces around `<`/`,` inside an ambiguous `a < b, c > (d)` region; whitespace tokens count
 		// towards the parser's local replay limit of 64 tokens, so the printed form of an accepted program is rejected
 		return "FS40"
-	case rec.Known("FS23") && strings.Contains(msg, "restricted types have been removed") && (strings.Contains(printed, "< fun") || strings.Contains(printed, "< view fun")):
+	case rec.Known("FS23") && strings.Contains(msg, "restricted types have been removed") && lessBeforeFun.MatchString(printed),
+		rec.Known("FS23") && strings.HasPrefix(msg, "printed program does not parse") && (strings.Contains(printed, "< (fun") || strings.Contains(printed, "< (view fun")):
 		// FS23: `a < fun () {}` (less-than with a function expression without return type): the parser's speculative
 		// type-argument parse reports a restricted-type error for `fun () {}` instead of backtracking
 		return "FS23"
@@ -547,7 +623,7 @@ func TestC38(t *testing.T) {
 		knownFS13 = true
 		rec.ReportKnown("FS13", m != "")
 	}
-	for id, repro := range map[string]string{"FS10": "let x = (attach A() to a) / x", "FS11": "let x = (destroy r) + 1", "FS12": "let x: fun(Int) = y", "FS14": "let a = 2 .a", "FS15": "let a: &(&T) = a", "FS16": "entitlement mapping N {}", "FS17": "fun a() { x = (); () }", "FS18": "let x = (-5)[0]", "FS20": "fun f() { pre { a; -b } }", "FS21": "let a = (<-x) as T", "FS22": "let a: (fun(): R)<T> = x", "FS23": "let x = a<fun(){ }", "FS36": "let a: auth(E |) &T = x", "FS37": "let a: (&(fun(): R))? = x", "FS38": "let x = &(&a) as &T"} {
+	for id, repro := range map[string]string{"FS10": "let x = (attach A() to a) / x", "FS11": "let x = (destroy r) + 1", "FS12": "let x: fun(Int) = y", "FS14": "let a = 2 .a", "FS15": "let a: &(&T) = a", "FS16": "entitlement mapping N {}", "FS17": "fun a() { x = (); () }", "FS18": "let x = (-5)[0]", "FS20": "fun f() { pre { a; -b } }", "FS21": "let a = (<-x) as T", "FS22": "let a: (fun(): R)<T> = x", "FS23": "let x = a<fun(){ }", "FS36": "let a: auth(E |) &T = x", "FS37": "let a: (&(fun(): R))? = x", "FS38": "let x = &(&a) as &T", "FS50": "let a <- (view)\nfun a() {}", "FS51": "fun a(){switch a{default:case a:}}", "FS52": "fun a(){((a<h .a>())&{})}"} {
 		if rec.Known(id) {
 			m, _ := roundTrip([]byte(repro), false)
 			rec.ReportKnown(id, m != "")
@@ -560,7 +636,7 @@ func TestC38(t *testing.T) {
 	kinds := map[string]int{}
 	// (json.Marshal of the AST re-compacts every nested MarshalJSON result, ~5 ms per program: quick counts are sized for that)
 	defer debug.SetGCPercent(debug.SetGCPercent(400))
-	N := evid.N(5_500, 40_000)
+	N := evid.N(5_500, 25_000)
 	report := func(class string, src []byte, notes []string, msg string) {
 		cls := msgClass(msg)
 		small := shrinkStructured(src, func(b []byte) bool {
